@@ -86,9 +86,8 @@ func putRawUnminedInput(ns mwdb.Bucket, k, v []byte) error {
 	spendTxHashes = append(spendTxHashes, v...)
 	return ns.Put(k, spendTxHashes)
 }
-func existsRawUnminedInput(ns mwdb.Bucket, k []byte) (v []byte) {
-	v, _ = ns.Get(k)
-	return v
+func existsRawUnminedInput(ns mwdb.Bucket, k []byte) (v []byte, err error) {
+	return ns.Get(k)
 }
 
 func deleteRawUnminedInput(ns mwdb.Bucket, k []byte) error {
@@ -121,10 +120,13 @@ func removeRawUnminedInputSpender(ns mwdb.Bucket, k, spender []byte) error {
 
 // fetchUnminedInputSpendTxHashes fetches the list of unmined transactions that
 // spend the serialized outpoint.
-func fetchUnminedInputSpendTxHashes(ns mwdb.Bucket, k []byte) []wire.Hash {
-	rawSpendTxHashes, _ := ns.Get(k)
+func fetchUnminedInputSpendTxHashes(ns mwdb.Bucket, k []byte) ([]wire.Hash, error) {
+	rawSpendTxHashes, err := ns.Get(k)
+	if err != nil {
+		return nil, err
+	}
 	if rawSpendTxHashes == nil {
-		return nil
+		return nil, nil
 	}
 
 	// Each transaction hash is 32 bytes.
@@ -136,7 +138,7 @@ func fetchUnminedInputSpendTxHashes(ns mwdb.Bucket, k []byte) []wire.Hash {
 		rawSpendTxHashes = rawSpendTxHashes[32:]
 	}
 
-	return spendTxHashes
+	return spendTxHashes, nil
 }
 
 //    credit
